@@ -287,6 +287,42 @@ def variant_stream(run, exe, pty_ok):
     return {"calls": ncalls, "build": "only_tty only"}
 
 
+# ------------------------------------------------------------------------------------------------ constructed ancestry
+ANCESTORS = ["vfy-listed", "vfy)mid(dle", "a) S 1 (b"]         # outermost first; kernel names set with prctl(PR_SET_NAME)
+
+
+def ancestry_stream(run, lib):
+    """the caller runs below three processes whose kernel names the harness chose (two of them with parentheses and blanks): a chain
+    that names one of them must silence the call, a chain that names none must not (expectation by construction, not measured)"""
+    chains = [(b"exclude_spawns_of:vfy-listed", False), (b"exclude_spawns_of:nosuchproc7,vfy-listed", False), (b"exclude_spawns_of:vfy)mid(dle", False),
+              (b"noop;exclude_spawns_of:a) S 1 (b;only_root", False), (b"exclude_spawns_of:nosuchproc7,vfy-liste,vfy-listedx,mid,dle", True),
+              (b"only_root;exclude_spawns_of:vfy", True)]
+    script = list(SINKS) + ["env\t" + hexlist([b"PATH=/bin"])]
+    for k, (c, want) in enumerate(chains):
+        script.append("ini\t" + hexs(b"[snoopy]\nmessage_format = \"%{cmdline}\"\noutput = file:@D@/out.log\nfilter_chain = \"" + c + b"\"\n"))
+        script.append(call_line("execv", b"/bin/prog", [b"mark-%d-x" % k], None, 0, -1, 2))
+    r = run_script_as(run, lib, script, "c07-ancestry", 0, 0, timeout=120, ancestors=ANCESTORS)
+    if r["status"] != 0:
+        run.violation("e2e:caller-died", "crash", "caller below the named ancestors %s ended with status %s: %s" % (ANCESTORS, r["status"], r["stderr"][-300:]),
+                      {"failing_input": {"ancestors": ANCESTORS}, "script": script, "uid": 0, "tty": 0, "ancestors": ANCESTORS})
+        return {"calls": 0}
+    pcs = per_call(r["records"])
+    for k, (c, want) in enumerate(chains):
+        call = pcs.get(k, {"sinks": {}, "real": []})
+        at = "".join(hx for (nm, hx) in call["sinks"].get("at-exec", []) if nm == "out" and hx not in ("-", "~"))
+        anywhere = [nm for ph in ("at-exec", "after", "after-flush") for (nm, hx) in call["sinks"].get(ph, []) if hx not in ("-", "~")]
+        logged = (b"mark-%d-x" % k).hex() in at
+        if logged != want or (not want and anywhere) or len(call["real"]) != 1:
+            sub = list(SINKS) + ["env\t" + hexlist([b"PATH=/bin"]), script[len(SINKS) + 1 + 2 * k], script[len(SINKS) + 2 + 2 * k].replace((b"mark-%d-x" % k).hex(), b"mark-0-x".hex())]
+            run.violation("e2e:ancestry", "spec_violation",
+                          "caller below processes named %s (outermost first): the chain %r must %s but %s"
+                          % (ANCESTORS, c, "let the call through" if want else "silence the call", "a record was written" if logged or anywhere else ("nothing was logged" if len(call["real"]) == 1 else "the exec was not reached once")),
+                          {"failing_input": {"filter_chain": c.decode("latin1"), "ancestors": ANCESTORS, "predicted": "pass" if want else "drop"},
+                           "script": sub, "uid": 0, "tty": 0, "sink": "out", "predicted_pass": want, "ancestors": ANCESTORS})
+            break
+    return {"calls": len(chains), "ancestors": ANCESTORS}
+
+
 # ------------------------------------------------------------------------------------------------ uid histories in one process image
 HIST_SEQ = [(0, 4242), (1000, 4242), (65534, 4242), (1000, 1000), (0, 0), (4294967294, 4242), (4242, 7), (0, 4242)]
 
@@ -517,6 +553,7 @@ def check(run):
     if not crashed:
         ee["uid_histories"] = hist_stream(run, exe, build_prod(run), run.tier)
         ee["one_filter_build"] = variant_stream(run, exe, pty_ok)
+        ee["constructed_ancestry"] = ancestry_stream(run, build_prod(run))
     nv_total = len(run.violations)
     if not ok and nv_total == 0:
         run.violation("proof:%s" % failed, "proof", "proof obligation no longer checks: %s; %s\n%s" % (failed, "; ".join(n for n in run.notes if n.startswith("translator") or n.startswith("skeleton")) or "the translator recognised every statement (the regenerated constants themselves violate the side condition)", log[-1500:]),
@@ -579,7 +616,7 @@ def replay(run, path):
                                   config_edit=lambda cfg: re.sub(r"^#define SNOOPY_CONF_FILTER_ENABLED_(?!only_tty\b)\w+.*$", "/* not in this build */", cfg, flags=re.M))
             lib = os.path.join(run.scratch, "lib-prod-onlytty.so")
             run.link(lib, [], objs, san=False, shared=True)
-        r = run_script_as(run, lib, rep["script"], "replay", rep.get("uid", 0), rep.get("tty", 0), timeout=120)
+        r = run_script_as(run, lib, rep["script"], "replay", rep.get("uid", 0), rep.get("tty", 0), timeout=120, ancestors=rep.get("ancestors", ()))
         c = per_call(r["records"]).get(0, {})
         seen = []
         for ph, l in c.get("sinks", {}).items():
